@@ -164,6 +164,20 @@ CLAIMED['C07'] = dict(
          'the memory branch of _finalize (combined enable/address/data chains) is checked by correspondence only.',
     technique='Lean 4 proof (refinement of the elaborated select chain to the unique-active-branch spec) + differential correspondence')
 
+CLAIMED['C08'] = dict(
+    text='Lean theorems: the write phase of the cycle semantics is the application of the cycle\'s enabled-write events; '
+         'a word holds the data of the last enabled write to it, else what it held before (so disabled writes are '
+         'invisible and reads of cycle t see only writes of cycles < t: content_step / content_zero); write ports to '
+         'pairwise distinct words commute under every permutation; the chained hash map of the C backend (any bucket '
+         'count, any collisions) refines a total map with default 0. Correspondence/oracle: random multi-port histories '
+         '(addr/data widths 1..70, initial contents) on the three simulators, the Lean Spec model and after '
+         'synthesize/optimize against a plain array; an exhaustive 2-word memory sweep (a test); ROM reads for '
+         'list/dict/function/sparse data incl. refusal of undefined and oversize words. PARTIAL: the exported-Verilog '
+         'clause is covered under C05; RomBlock._get_read_data has no theorem.',
+    design='4 C08',
+    note=NOTE_COMMON + 'malloc/memcpy of the generated C are modelled as functional updates.',
+    technique='Lean 4 proof (refinement to an array / total map) + history correspondence on three simulators')
+
 NOT_YET = {}
 
 
